@@ -172,10 +172,13 @@ def run(ctx, col: Collector):
     res = Resolver(idx)
 
     def anchors():
+        from ..inline import inlined_info
         pyd = idx.cls(PARSER_MOD, 'PyDBML')
-        new = idx.func(PARSER_MOD, 'PyDBML.__new__')
-        parse = idx.func(PARSER_MOD, 'PyDBML.parse')
-        parse_file = idx.func(PARSER_MOD, 'PyDBML.parse_file')
+        # the entry points are read with their private helpers in place; the BOM remover and the entry points themselves stay calls
+        keep_ = {'remove_bom', 'parse', 'parse_file', '__new__'}
+        new = inlined_info(idx, idx.func(PARSER_MOD, 'PyDBML.__new__'), depth=2, keep=keep_)
+        parse = inlined_info(idx, idx.func(PARSER_MOD, 'PyDBML.parse'), depth=2, keep=keep_)
+        parse_file = inlined_info(idx, idx.func(PARSER_MOD, 'PyDBML.parse_file'), depth=2, keep=keep_)
         return pyd, new, parse, parse_file
 
     # ---------------------------------------------------------------- (i) BOM funnel
